@@ -82,6 +82,16 @@ CHECKS["C06"] = {
     "design_ref": "§7 C06",
 }
 
+CHECKS["C04"] = {
+    "category": "model_checking",
+    "technique": "TLA+ Certs.tla validity predicates; TLC enumerates certificate / add-sequence case tables with the spec's verdict, replayed into the real verify()/add() with real BLS signatures (T3)",
+    "text": "Accept/reject of commit certificates, timeout certificates, blocks, proposals and new-views is compared with the specification over every "
+            "signer subset (incl. weight at / below quorum), every single-field corruption of the catalogue and every incremental assembly of <= 3 votes, "
+            "on weighted and unit committees.",
+    "note": "BLS soundness assumed; corruption catalogue is single-field; committees <= 6 validators.",
+    "design_ref": "§7 C04",
+}
+
 NOT_YET = "check not built yet (construction in progress; see DESIGN.md §11 build order)"
 NA_REASONS = {}
 
